@@ -53,8 +53,9 @@ def gradient_vs_finite_difference(inp):
         # reported dynamics = forward dynamics of the same piecewise constant controls
         _, dyn = _objective(oqupy, psys, pts, rho0, target, params, dt)
         derr = float(np.abs(np.array(res['dynamics'].states) - np.array(dyn.states)).max())
-        if err > 1e-6 or derr > 1e-10:
-            bad.append({'environments': 2 if two else 1, 'max_gradient_error': err, 'dynamics_mismatch': derr})
+        ferr = float(np.abs(np.array(res['final_state']) - np.array(dyn.states[-1])).max())
+        if err > 1e-6 or derr > 1e-10 or ferr > 1e-10:
+            bad.append({'environments': 2 if two else 1, 'max_gradient_error': err, 'dynamics_mismatch': derr, 'final_state is not the last state': ferr})
     return {'violates': bool(bad), 'detail': bad, **out}
 
 
